@@ -124,12 +124,13 @@ def tagSetBody (t : Tag) : Option Bytes → Tag
 /-- `Tag._deserialize` on an object whose attributes are `prev` (a fresh object: `Tag.empty`).  Only
 tagger/time/timezone are reset; the other attributes survive when their header is absent. -/
 def deserializeTag (prev : Tag) (bs : Bytes) : Except Err Tag :=
-  match parseMessage bs with
-  | .error e => .error e
-  | .ok (hs, body) =>
-    match foldFields tagField { prev with tagger := none, tagTime := none, tagTz := none, tagNeg := some false } hs with
-    | .ok t => .ok (tagSetBody t body)
-    | .error e => .error e
+  let p := parseMessageP bs
+  match foldFields tagField { prev with tagger := none, tagTime := none, tagTz := none, tagNeg := some false } p.1 with
+  | .error e => .error e              -- a field handler raised before the generator got further
+  | .ok t =>
+    match p.2 with
+    | .error e => .error e            -- the generator raised on a line without a space
+    | .ok body => .ok (tagSetBody t body)
 
 /-! ## Commit -/
 
@@ -214,12 +215,13 @@ def commitField (c : Commit) (kv : Bytes × Bytes) : Except Err Commit :=
 
 /-- `Commit._deserialize` (`_parse_commit` + attribute assignment: every attribute is overwritten). -/
 def deserializeCommit (bs : Bytes) : Except Err Commit :=
-  match parseMessage bs with
+  let p := parseMessageP bs
+  match foldFields commitField Commit.empty p.1 with
   | .error e => .error e
-  | .ok (hs, body) =>
-    match foldFields commitField Commit.empty hs with
-    | .ok c => .ok { c with message := body }
+  | .ok c =>
+    match p.2 with
     | .error e => .error e
+    | .ok body => .ok { c with message := body }
 
 /-! ## the cache state machine of `ShaFile` -/
 
